@@ -65,6 +65,7 @@ type world struct {
 	histID  string
 	nViol   int
 	imports bool // true while only imports (and reopens) happened since the start: C02's quantifier
+	noModel bool // history outside the model's scope (more than 128 blocks: trie garbage collection): judged directly only
 	lagged  bool // a rewind on the pruned node fell back below its target (block head below header head) earlier in this history
 }
 
@@ -654,7 +655,9 @@ func (w *world) runHistory(ops []Op) {
 		}
 		w.stats(op, d)
 	}
-	run.Case(fmt.Sprintf("hist %s %s %s %s", w.prop, w.mode, tree, strings.Join(opS, ";")), strings.Join(outS, ";"))
+	if !w.noModel {
+		run.Case(fmt.Sprintf("hist %s %s %s %s", w.prop, w.mode, tree, strings.Join(opS, ";")), strings.Join(outS, ";"))
+	}
 }
 
 // stats: input-distribution counters (so that a degenerate generator is visible in the evidence).
@@ -729,6 +732,37 @@ func Main(prop string) {
 		run.Count(fmt.Sprintf("tree:blocks=%02d", len(t.Nodes)-1))
 		run.Count("mode:" + mode)
 		w.runHistory(genOps(r, t, prop, mode))
+	}
+	// A chain longer than triesInMemory (128) on a pruning node with the default-sized cache: the states of the oldest
+	// blocks are garbage collected DURING import (no restart involved). Not covered by the Lean model; judged directly.
+	{
+		r := rng.Fork(0xC0FFEE)
+		t := chainx.NewTree(chainx.Opts{WithTxs: true, MinOffset: -9, MaxOffset: 400, ForkFree: true})
+		side := t.AddChild(r, 0).ID
+		side2 := t.AddChild(r, side).ID
+		tip := 0
+		var main []int
+		for i := 0; i < 136; i++ {
+			tip = t.AddChild(r, tip).ID
+			main = append(main, tip)
+		}
+		w := &world{prop: prop, run: run, t: t, mode: "pruning", histID: "hist#long", noModel: true,
+			cache: &core.CacheConfig{Disabled: false, TrieNodeLimit: 256, TrieTimeLimit: time.Hour}}
+		ops := []Op{{Kind: 'I', IDs: []int{side}}}
+		for i := 0; i < len(main); i += 17 {
+			j := i + 17
+			if j > len(main) {
+				j = len(main)
+			}
+			ops = append(ops, Op{Kind: 'I', IDs: main[i:j]})
+		}
+		if prop == "C03" {
+			ops = append(ops, Op{Kind: 'S', N: 130}, Op{Kind: 'I', IDs: main[130:]}, Op{Kind: 'S', N: 4}, Op{Kind: 'I', IDs: []int{side2}})
+		} else {
+			ops = append(ops, Op{Kind: 'I', IDs: []int{side2}}, Op{Kind: 'I', IDs: main[100:]})
+		}
+		run.Count("mode:pruning-long-chain(direct-judgement-only)")
+		w.runHistory(ops)
 	}
 	run.Notes["histories"] = nHist
 	run.Finish()
